@@ -268,3 +268,64 @@ Proof.
   eexists. split; [vm_compute; reflexivity|]. split; [|vm_compute; auto].
   intros t. destruct t as [|[|[|t]]]; vm_compute; auto.
 Qed.
+
+(* ------------------------------------------------------------------ the wake LTS on a stacked chain *)
+From SF Require Import Sched.WakeStacked.
+Definition sk_big : list (string * hw) := [("d0/c0", mkhw 9 1 root0); ("host/h0", mkhw 9 1 root0)].
+Definition sk_w0 : waiter := mkwaiter "/s/0" [[st_outer; st_inner]] st_reqs 1 [].
+Definition sk_w9 : waiter := mkwaiter "/s/9" [[st_outer; st_inner]] sk_big 1 [].
+Definition sk_prog (t : nat) : kind :=
+  match t with 0%nat => KReq sk_w0 | 1%nat => KReq sk_w9 | 2%nat => KNot "/s/0" Completed st_fls | _ => KNot "" Waiting [] end.
+Definition sk_run : list act := [AArrive 0; AStep 0; AArrive 1; AStep 1; AArrive 2; AStep 2; AStep 1].
+Definition sk_hist : list event := [ev_of sk_w0; ev_of sk_w9; ENotify "/s/0" Completed st_fls; ev_of sk_w9].
+
+Ltac eval_attempt :=
+  match goal with |- context [attempt ?a ?b ?c ?d ?e ?f] =>
+    let v := eval vm_compute in (attempt a b c d e f) in change (attempt a b c d e f) with v end.
+
+Lemma sk_conformant : conformant2 st_locs init (fun _ => []) sk_hist.
+Proof.
+  unfold sk_hist, ev_of, sk_w0, sk_w9. cbn [w_job w_cands w_reqs w_n w_chosen conformant2].
+  assert (Hcands : forall reqs : list (string * hw), (forall l, In l [st_outer; st_inner] -> lookup (req_key l) reqs <> None) ->
+            forall c, In c [[st_outer; st_inner]] ->
+            c <> [] /\ (forall l, In l c -> In l st_locs /\ lookup (req_key l) reqs <> None) /\ NoDup (names c)).
+  { intros reqs Hr c [Hc|[]]. subst. split; [discriminate|]. split.
+    - intros l Hl. split; [exact Hl|apply Hr; exact Hl].
+    - simpl. constructor; [intros [H|[]]; discriminate|constructor; [intros []|constructor]]. }
+  split; [split; [reflexivity|split; [simpl; lia|split]]|].
+  { apply Hcands. intros l [Hl|[Hl|[]]]; subst; vm_compute; discriminate. }
+  { intros k h [Hi|[Hi|[]]]; inversion Hi; subst; apply wfr_st_rq. }
+  split; [reflexivity|].
+  remember (gstepR init (EAttempt "/s/0" [[st_outer; st_inner]] st_reqs 1 []) (fun _ => [])) as R1 eqn:ER1.
+  assert (HR1 : R1 "/s/0" = [("c0", st_rq); ("h0", st_rq)]) by (rewrite ER1; vm_compute; reflexivity).
+  clear ER1. vm_compute step. cbv iota beta.
+  (* /s/9: 9 cores, waits *)
+  split; [split; [reflexivity|split; [simpl; lia|split]]|].
+  { apply Hcands. intros l [Hl|[Hl|[]]]; subst; vm_compute; discriminate. }
+  { intros k h [Hi|[Hi|[]]]; inversion Hi; subst; apply wfr_small; lia. }
+  split; [reflexivity|].
+  vm_compute step. cbv iota beta.
+  match goal with |- context [gstepR ?s ?e R1] =>
+    assert (E2 : gstepR s e R1 = R1) by (unfold gstepR; eval_attempt; reflexivity); rewrite E2; clear E2 end.
+  (* /s/0 FIREABLE -> COMPLETED, both levels released coherently *)
+  split; [exact I|]. split.
+  { simpl. split; [discriminate|split; [discriminate|]]. rewrite HR1.
+    match goal with |- coherent ?rs ?rl => let v := eval vm_compute in rl in change rl with v end.
+    intros r rq [Hr|[Hr|[]]] Hq; subst r; cbn [rl_name rl_jh rl_u] in *;
+      (assert (rq = st_rq) by (destruct Hq as [Hq|[Hq|[]]]; inversion Hq; reflexivity)); subst rq;
+      (split; [exact (proj1 wfr_st_rq)|]); (split; [reflexivity|]); (split; [auto|]);
+      intros m; unfold size_at; cbn [total values stor map snd mount size st_rq]; destruct (String.eqb "/" m); lia. }
+  cbn [gstepR]. vm_compute step. cbv iota beta.
+  (* /s/9 re-evaluated after the wake-up: still waits *)
+  split; [split; [reflexivity|split; [simpl; lia|split]]|].
+  { apply Hcands. intros l [Hl|[Hl|[]]]; subst; vm_compute; discriminate. }
+  { intros k h [Hi|[Hi|[]]]; inversion Hi; subst; apply wfr_small; lia. }
+  split; [reflexivity|]. vm_compute step. cbv iota beta. exact I.
+Qed.
+
+Lemma sk_execution : exists c, execs sk_prog c0 sk_run = Some c /\ quiescent c /\ pcs c 1%nat = PWaiting /\
+  waitq c = [1%nat] /\ gpre c ++ ground c = sk_hist.
+Proof.
+  eexists. split; [vm_compute; reflexivity|]. split; [|vm_compute; auto].
+  intros t. destruct t as [|[|[|t]]]; vm_compute; auto.
+Qed.
